@@ -98,3 +98,66 @@ pub proof fn lemma_hw_wrong_side(t: nat, j: nat, k: nat, channel: ChannelId, edg
     }
 }
 
+
+// ---- rows of one board (the `for chunk in fifo.split_inclusive(..)` loop of main) ---------------------------------------------
+// `<[T]>::split_last` for Copy elements, returning the last element by value (the /repo pattern `Some((&E, rest))` copies it)
+#[verifier::external_body]
+pub fn ext_split_last_copy<T: Copy>(s: &[T]) -> (r: Option<(T, &[T])>)
+    ensures s@.len() == 0 ==> r.is_none(),
+            s@.len() > 0 ==> (r matches Some(p) && p.0 == s@[s@.len() - 1] && p.1@ == s@.subrange(0, s@.len() - 1)),
+{ match s.split_last() { Some((&l, rest)) => Some((l, rest)), None => None } }
+
+pub open spec fn entry_wf(e: FifoEntry) -> bool {
+    match e { FifoEntry::TimestampCounter(t) => wf_tsc(t), FifoEntry::WrapAroundMarker(m) => wf_marker(m) }
+}
+// the last marker in front of position i / the first marker at or behind position i
+pub open spec fn prev_marker(s: Seq<FifoEntry>, i: int) -> Option<WrapAroundMarker> decreases i {
+    if i <= 0 || i > s.len() { None } else { match s[i - 1] { FifoEntry::WrapAroundMarker(m) => Some(m), _ => prev_marker(s, i - 1) } }
+}
+pub open spec fn next_marker(s: Seq<FifoEntry>, i: int) -> Option<WrapAroundMarker> decreases s.len() - i {
+    if i < 0 || i >= s.len() { None } else { match s[i] { FifoEntry::WrapAroundMarker(m) => Some(m), _ => next_marker(s, i + 1) } }
+}
+// positions < n that hold a timestamp entry, ascending
+pub open spec fn ts_positions(s: Seq<FifoEntry>, n: int) -> Seq<int> decreases n {
+    if n <= 0 || n > s.len() { Seq::empty() } else {
+        let r = ts_positions(s, n - 1);
+        if s[n - 1] is TimestampCounter { r.push(n - 1) } else { r }
+    }
+}
+// r is the row of the timestamp entry at position i: its own channel and edge, and the time chronobox_time gives it between the
+// two markers that enclose it in the stream (none if one of them is missing or they do not fit: never a guessed time)
+pub open spec fn row_ok(r: Row, s: Seq<FifoEntry>, i: int, board: String) -> bool {
+    let p = prev_marker(s, i);
+    let n = next_marker(s, i);
+    &&& 0 <= i < s.len()
+    &&& s[i] matches FifoEntry::TimestampCounter(t)
+    &&& r.board == board
+    &&& r.channel == t.channel.0
+    &&& r.leading_edge == (t.edge is Leading)
+    &&& r.chronobox_time.is_some() == (p.is_some() && n.is_some() && guard(t, p.unwrap(), n.unwrap()))
+    &&& (r.chronobox_time matches Some(x) ==> ticks_of(x) as int == time_of(t, p.unwrap()))
+}
+pub open spec fn rows_ok(rows: Seq<Row>, s: Seq<FifoEntry>, n: int, board: String) -> bool {
+    &&& rows.len() == ts_positions(s, n).len()
+    &&& forall|k: int| 0 <= k < rows.len() ==> row_ok(#[trigger] rows[k], s, ts_positions(s, n)[k], board)
+}
+pub proof fn lemma_prev_const(s: Seq<FifoEntry>, a: int, i: int)
+    requires 0 <= a <= i <= s.len(), forall|j: int| a <= j < i ==> !(#[trigger] s[j] is WrapAroundMarker)
+    ensures prev_marker(s, i) == prev_marker(s, a)
+    decreases i - a
+{ if i > a { lemma_prev_const(s, a, i - 1); } }
+pub proof fn lemma_next_const(s: Seq<FifoEntry>, i: int, b: int)
+    requires 0 <= i <= b <= s.len(), forall|j: int| i <= j < b ==> !(#[trigger] s[j] is WrapAroundMarker)
+    ensures next_marker(s, i) == next_marker(s, b)
+    decreases b - i
+{ if i < b { lemma_next_const(s, i + 1, b); } }
+pub proof fn lemma_prev_wf(s: Seq<FifoEntry>, i: int)
+    requires forall|j: int| 0 <= j < s.len() ==> entry_wf(#[trigger] s[j])
+    ensures prev_marker(s, i) matches Some(p) ==> wf_marker(p)
+    decreases i
+{ if 0 < i <= s.len() { assert(entry_wf(s[i - 1])); lemma_prev_wf(s, i - 1); } }
+pub proof fn lemma_next_wf(s: Seq<FifoEntry>, i: int)
+    requires forall|j: int| 0 <= j < s.len() ==> entry_wf(#[trigger] s[j])
+    ensures next_marker(s, i) matches Some(p) ==> wf_marker(p)
+    decreases s.len() - i
+{ if 0 <= i < s.len() { assert(entry_wf(s[i])); lemma_next_wf(s, i + 1); } }
